@@ -5,6 +5,7 @@ import (
 	"errors"
 	"fmt"
 	"io"
+	"net/http"
 	"os"
 	"os/exec"
 	"regexp"
@@ -268,7 +269,10 @@ func c15Case(env *Env, tape *sim.Tape) *CaseOut {
 		mediatype, wf := drawMediatype()
 		mt, params := modelSplit(mediatype)
 		wantID, wantHow, wantOK := md.lookup(mt)
-		kind := tape.Draw(6)
+		kind := tape.Draw(7)
+		if kind == 6 && !wf {
+			kind = 1
+		}
 		hist = append(hist, fmt.Sprintf("query%d(%q)", kind, mediatype))
 		rec = rec[:0]
 		site := fmt.Sprintf("query%d", kind)
@@ -335,6 +339,29 @@ func c15Case(env *Env, tape *sim.Tape) *CaseOut {
 			}
 		case 5:
 			gotOut, gotErr = io.ReadAll(m.Reader(mediatype, bytes.NewReader(payload)))
+		case 6:
+			// an HTTP response with this Content-Type: served by the same minifier with the
+			// same parameters as a call, and passed through untouched when there is none
+			sw := sim.NewSimWriter(nil)
+			rw := sim.NewSimResponseWriter(sw)
+			mw := m.ResponseWriter(rw, &http.Request{RequestURI: "/resource", Method: "GET"})
+			mw.Header().Set("Content-Type", mediatype)
+			_, werr := mw.Write(payload)
+			gotErr = mw.Close()
+			if gotErr == nil {
+				gotErr = werr
+			}
+			gotOut = sw.Buf
+			out.stat("queries_through_http_response_writer", 1)
+			if !wantOK {
+				if gotErr != nil || !bytes.Equal(gotOut, payload) {
+					return fail("passthrough-differs", site, fmt.Sprintf("Content-Type %q has no minifier: the body must pass through unchanged, got %q err=%v", mediatype, gotOut, gotErr))
+				}
+				if len(rec) != 0 {
+					return fail("wrong-minifier", site, fmt.Sprintf("Content-Type %q: model says none, stub s%d ran", mediatype, rec[0].id))
+				}
+				continue
+			}
 		}
 		if !wantOK {
 			if !errors.Is(gotErr, minify.ErrNotExist) {
